@@ -12,11 +12,13 @@ import tempfile
 from pathlib import Path
 
 
-def do_request(req, base_dir=None):
+def do_request(req, base_dir=None, fixed_base=None):
+    """fixed_base: assemble inside this existing directory (kept afterwards) so that requests of one history that name
+    the same dir_tag re-use the same source and output PATHS, as a user re-assembling an edited file does"""
     import flipjump
     from flipjump.fjm.fjm_consts import FJMVersion
     from flipjump.utils.exceptions import FlipJumpException
-    base = Path(tempfile.mkdtemp(prefix='asmreq.', dir=base_dir or os.environ.get('FJVERIF_SNAPSHOT') or None))
+    base = Path(fixed_base) if fixed_base else Path(tempfile.mkdtemp(prefix='asmreq.', dir=base_dir or os.environ.get('FJVERIF_SNAPSHOT') or None))
     try:
         d = base
         for comp in (req.get('dir_tag') or 'x').split('/'):
@@ -29,6 +31,12 @@ def do_request(req, base_dir=None):
             paths.append(p)
         out = d / 'out.fjm'
         dbg = d / 'out.fjd'
+        for old in (out, dbg):
+            if old.exists():
+                old.unlink()
+        for stale in d.glob('*.fj'):
+            if stale not in paths:
+                stale.unlink()
         res = {'status': 'ok', 'exc': None, 'fjm': None, 'fjd': None}
         kw = {}
         if req.get('depth') is not None:
@@ -56,7 +64,8 @@ def do_request(req, base_dir=None):
                 res['fjd'] = dbg.read_bytes().hex()
         return res
     finally:
-        shutil.rmtree(base, ignore_errors=True)
+        if not fixed_base:
+            shutil.rmtree(base, ignore_errors=True)
 
 
 def main():
